@@ -496,7 +496,10 @@ def _eliminate_returns_general(stmts, k, done_name):
 
 def _assigned_names(fn) -> set:
     names = set()
+    comp_scoped = {id(t) for c in ast.walk(fn) if isinstance(c, ast.comprehension) for t in ast.walk(c.target)}
     for n in _walk_no_nested(fn):
+        if id(n) in comp_scoped:
+            continue   # the variable of a comprehension lives in the comprehension's own scope
         if isinstance(n, ast.Name) and isinstance(n.ctx, (ast.Store, ast.Del)):
             names.add(n.id)
         elif isinstance(n, ast.ExceptHandler) and n.name:
